@@ -604,7 +604,7 @@ fn ubj(rng: &mut Rng, ctx: &mut Ctx) {
             let key = b"U\x08metadata{";
             let back = if w.is_ok() { let start = o.windows(key.len()).rposition(|w| w == key).unwrap() + key.len(); hex(&o[start..o.len() - 2]) } else { "?".into() };
             format!("ok {} rest={} back={}", json_dump(&m), rest, back) }) }));
-        let line = match res { Err(_) => { fails.push(("C06".into(), "panic in the metadata reader".into())); "panic".to_string() } Ok(Err(_)) => { if clean { fails.push(("C16".into(), "well-formed metadata rejected".into())); } "err".to_string() } Ok(Ok(j)) => j };
+        let line = match res { Err(_) => { fails.push(("C06".into(), "panic in the metadata reader".into())); "panic".to_string() } Ok(Err(e)) => { if std::env::var("PV_ERRS").is_ok() { eprintln!("UBJ-ERR {} : {}", hex(&body), e); } if clean { fails.push(("C16".into(), "well-formed metadata rejected".into())); } "err".to_string() } Ok(Ok(j)) => j };
         // the same file through a source that returns short reads: keys and strings arrive in pieces
         { let plan: Vec<usize> = match k % 4 { 0 => vec![1], 1 => vec![2, 3, 7], 2 => vec![4], _ => vec![199, 1] };
           let a = slippi::read(Cursor::new(&file), None).map(|g| format!("{:?}", g.metadata)).map_err(|e| e.to_string());
